@@ -375,22 +375,53 @@ def unit_orig_text(u, repo=None):
 # the list of `impl` headers and of `#[derive(..)]` attributes per type in each source file is recorded in
 # inventory_baseline.json; a new, removed or re-derived impl in a file that holds units of the property makes the check
 # UNDECIDED (then the witness search decides), never a violation by itself.
-def item_inventory(path):
-    import rstok
+def item_inventory(path, contracted=()):
+    """contracted: normalised `impl ...` keys (rstok.normalize_key) of impls that hold at least one unit under contract: their
+    text is verified, so only their header is recorded; every OTHER trait impl is recorded with a hash of its text
+    (comments removed), because its behaviour is trusted at the trait level for exactly that text."""
+    import rstok, hashlib
     src = open(path).read()
     toks = rstok.tokenize(src)
     items = rstok.parse_items(src, toks, 0, len(toks), None)
     out = []
+    contracted = set(contracted)
+
+    def strip(t):
+        t = re.sub(r'//[^\n]*', '', t)
+        t = re.sub(r'/\*.*?\*/', '', t, flags=re.S)
+        return ' '.join(t.split())
 
     def walk(its, prefix):
         for it in its:
             if it.kind == 'impl':
-                out.append(prefix + 'impl ' + ' '.join((it.header or '').split()))
+                head = ' '.join((it.header or '').split())
+                entry = prefix + 'impl ' + head
+                if ' for ' in head and rstok.normalize_key(prefix + 'impl ' + (it.header or '')) not in contracted \
+                        and rstok.normalize_key('impl ' + (it.header or '')) not in contracted:
+                    entry += ' #' + hashlib.sha256(strip(src[it.kw:it.end]).encode()).hexdigest()[:10]
+                out.append(entry)
             elif it.kind in ('struct', 'enum'):
                 head = src[it.start:it.kw]
                 ders = sorted(set(d.strip() for m in re.finditer(r'derive\(([^)]*)\)', head) for d in m.group(1).split(',') if d.strip()))
                 out.append(prefix + '%s %s derive(%s)' % (it.kind, it.name, ', '.join(ders)))
-            elif it.kind == 'mod' and it.children:
+            elif it.kind == 'mod' and it.children and it.name not in ('tests', 'test'):
                 walk(it.children, prefix + 'mod %s :: ' % it.name)
     walk(items, '')
     return sorted(out)
+
+
+def contracted_impl_keys(index, relfile):
+    """normalised impl keys (with and without enclosing `mod x ::`) of the impls of `relfile` that hold a unit"""
+    import rstok
+    keys = set()
+    for u in index['units']:
+        if u['file'] != relfile or ' :: ' not in u['path']:
+            continue
+        segs = u['path'].split(' :: ')
+        for n in range(1, len(segs)):
+            if segs[n - 1].strip().startswith('impl'):
+                keys.add(rstok.normalize_key(' :: '.join(segs[:n])))
+                keys.add(rstok.normalize_key(segs[n - 1]))
+    for w in index.get('wraps', []):
+        pass
+    return keys
